@@ -104,8 +104,8 @@ CLAIMED = {
         note="Trusted: TLC, scripting of numpy draws inside the driver, square images, eval-mode forward on seeded probe batches (3 per state).",
         design="4/C03"),
     "C04": dict(
-        technique="TLA+ spec Arch.tla (Shapes / Common index ranges: expected provenance of every tensor element across a mutation) model-checked by TLC + the same relation walk on real modules with position-coded weights, provenance decoded and validated by TLC (Arch_Trace)",
-        text="TLC checks ShapesTotal and SurvivorsOverlap (every surviving tensor keeps a non-empty common index range) on all instances. Before every real mutation each parameter element is overwritten with a unique exact code; afterwards the codes are decoded and TLC checks that exactly the cells in the component-wise minimum of old and new shape kept their value (CNN shrink rule on the first two dimensions), that a mutation leaving the architecture unchanged gives bit-equal outputs, and that clone() gives bit-equal outputs on probe batches.",
+        technique="TLA+ spec Arch.tla (Shapes / Common index ranges: expected provenance of every tensor element across a mutation) model-checked by TLC + the same relation walk on real modules with position-coded weights, provenance decoded and validated by TLC (Arch_Trace); TLA+ spec CloneChain.tla (several live objects: CloneSame, NoopSame, Local, Described) model-checked by TLC + seeded clone / mutate / drop chains on real modules incl. MakeEvolvable with every live object re-measured after every step, validated by TLC (CloneChain_Trace)",
+        text="TLC checks ShapesTotal and SurvivorsOverlap (every surviving tensor keeps a non-empty common index range) on all instances. Before every real mutation each parameter element is overwritten with a unique exact code; afterwards the codes are decoded and TLC checks that exactly the cells in the component-wise minimum of old and new shape kept their value (CNN shrink rule on the first two dimensions), that a mutation leaving the architecture unchanged gives bit-equal outputs, and that clone() gives bit-equal outputs on probe batches. Chain stage: parent, clones and siblings live side by side; after every clone / mutation / drop TLC checks on the measured structure and outputs of ALL live objects and of a fresh clone of each that only the mutated object changed, unchanged architectures compute the same, and clones reproduce their originals (negative control: shared description).",
         note="Trusted: TLC, float32-exact codes (channel sizes capped at 64 in walks), eval-mode comparisons.",
         design="4/C04"),
 }
